@@ -21,8 +21,8 @@ ID = 'C01'
 LEVEL = 'exploration'
 
 PSEUDOS = ('root', 'empty', 'first-child', 'last-child', 'only-child', 'first-of-type', 'last-of-type', 'only-of-type')
-T_VALUES = (None, '', 'v', 'V', 'v w', 'w-v', 'v-', 'v\n', ' v', 'xvx', 'v.x', '.', 'x\nv', 'v\nx', 'x\rv-w\n\nv', 'v\xa0w', 'w\x0bv', 'v\tw')
-SEL_VALUES_Q = ('', 'v', 'V', 'w', 'v w', '-', 'v-', 'x', '.', 'v\xa0w')
+T_VALUES = (None, '', 'v', 'V', 'v w', 'w-v', 'v-', 'v\n', ' v', 'xvx', 'v.x', '.', 'x\nv', 'v\nx', 'x\rv-w\n\nv', 'v\xa0w', 'w\x0bv', 'v\tw', "'v'", '"v', 'v"')
+SEL_VALUES_Q = ('', 'v', 'V', 'w', 'v w', '-', 'v-', 'x', '.', 'v\xa0w', "'v'", '"', 'v"')
 OPS = ('=', '~=', '|=', '^=', '$=', '*=', '!=')
 _CACHE = {}
 
